@@ -7,6 +7,7 @@ Same structure as `QeepProps/C15.lean`: for each activation, the *local* backwar
 forward pass creates, evaluated with the Model's rules (`evalRule`), for every input shape and all values over `ℝ`.
 -/
 set_option linter.unusedSimpArgs false
+set_option linter.unusedSectionVars false
 
 namespace Qeep
 namespace C15x
@@ -352,6 +353,79 @@ theorem sigmoid_local_vjp (bm : BMode) (H : Heap ℝ) (x o x2 o' x2' y : Nat) (G
   rw [gz_add G (H.val x) _ _ wX wG hd]
   exact congrArg Out.ok (gz_congr G (H.val x) _ _ sig_factor)
 
+/-- **the graph Sigmoid builds** on a tracked, unspent input `x`: seven new tensors
+    `o = Pow(x,0)`, `x1 = Scale(x,−1)`, `x2 = Exp(x1)`, `o' = Broadcast(o)`, `x2' = Broadcast(x2)`, `y = Add(o',x2')`,
+    `r = Pow(y,−1)`, their values, and their back edges (all tracked, unspent, no gradient yet) -/
+theorem sigmoid_graph (H : Heap ℝ) (x : Nat) (hwf : (H.val x).WF) (l : Live H x) :
+    ∃ o x1 x2 o' x2' y r H', actForward Activation.sigmoid [some x] H = .ok (r, H') ∧ Extends H H' ∧
+      H'.val x = H.val x ∧
+      H'.val x2 = (H.val x).map (fun a => Real.exp (-a)) ∧
+      H'.val o' = H'.val o ∧ H'.val x2' = H'.val x2 ∧
+      H'.val y = (H.val x).map (fun a => 1 + Real.exp (-a)) ∧
+      H'.val r = (H.val x).map sig ∧
+      H'.ctx o = liveCtx [⟨x, .powX x 0⟩] ∧
+      H'.ctx x1 = liveCtx [⟨x, .scaleX (-1)⟩] ∧
+      H'.ctx x2 = liveCtx [⟨x1, .expX x2⟩] ∧
+      H'.ctx o' = liveCtx [⟨o, .bcastX o o'⟩] ∧
+      H'.ctx x2' = liveCtx [⟨x2, .bcastX x2 x2'⟩] ∧
+      H'.ctx y = liveCtx [⟨o', .idG⟩, ⟨x2', .idG⟩] ∧
+      H'.ctx r = liveCtx [⟨y, .powX y (-1)⟩] := by
+  obtain ⟨r, H', hrun, hext, hval⟩ := C14.sigmoid_value H x l.1 hwf
+  have h := hrun
+  unfold actForward at h
+  rw [bind_run (show (liftOut (oneInput [some x]) : HM ℝ Nat) H = .ok (x, H) from rfl)] at h
+  simp only [] at h
+  obtain ⟨o, H1, g1, h⟩ := bind_ok h
+  obtain ⟨vo, e1, co, lo⟩ := hPow_live g1 l
+  obtain ⟨x1, H2, g2, h⟩ := bind_ok h
+  obtain ⟨vx1, e2, cx1, lx1⟩ := hScale_live g2 (l.ext e1)
+  obtain ⟨x2, H3, g3, h⟩ := bind_ok h
+  obtain ⟨vx2, e3, cx2, lx2⟩ := hUnary_live g3 lx1
+  obtain ⟨y, H4, g4, g5⟩ := bind_ok h
+  have lo3 : Live H3 o := (lo.ext e2).ext e3
+  obtain ⟨o', x2', e4, vo', vx2', vy, co', cx2', cy, lo', lx2', ly⟩ := hArith_live g4 lo3 lx2
+  obtain ⟨vr, e5, cr, lr⟩ := hPow_live g5 ly
+  -- values below the Add
+  have hx1 : H1.val x = H.val x := e1.val l.1
+  have ho3 : H3.val o = vPow (H.val x) Scalar.zero := by rw [(e2.trans e3).val lo.1, vo]
+  have hx23 : H3.val x2 = (H.val x).map (fun a => Real.exp (-a)) := by
+    rw [vx2, vx1, hx1]
+    simp only [vUnary, vScale, Tensor.map, Unary.fn, List.map_map]
+    congr 1
+    apply List.map_congr_left
+    intro a _
+    simp
+  have wo : (H3.val o).WF := by rw [ho3]; exact map_wf _ _ hwf
+  have wx2 : (H3.val x2).WF := by rw [hx23]; exact map_wf _ _ hwf
+  have hdd : (H3.val o).dims = (H3.val x2).dims := by rw [ho3, hx23]; rfl
+  rw [← hdd, targetBroadcastDims_self, vBroadcastN_self _ wo] at vo'
+  rw [← hdd, targetBroadcastDims_self, hdd, vBroadcastN_self _ wx2] at vx2'
+  rw [vArith_same .add _ _ wo wx2 hdd] at vy
+  injection vo' with vo'
+  injection vx2' with vx2'
+  injection vy with vy
+  have e45 : Extends H4 H' := e5
+  have e35 : Extends H3 H' := e4.trans e5
+  refine ⟨o, x1, x2, o', x2', y, r, H', hrun, hext, hext.val l.1, ?_, ?_, ?_, ?_, ?_, ?_, ?_, ?_, ?_, ?_, ?_, ?_⟩
+  · rw [e35.val lx2.1, hx23]
+  · rw [e45.val lo'.1, e35.val lo3.1, vo']
+  · rw [e45.val lx2'.1, e35.val lx2.1, vx2']
+  · rw [e45.val ly.1, ← vy, ho3, hx23]
+    simp only [vPow, Tensor.map, Arith.fn]
+    congr 1
+    rw [C14.zipWith_maps]
+    apply List.map_congr_left
+    intro a _
+    simp
+  · rw [hval]; rfl
+  · rw [(((e2.trans e3).trans e4).trans e5).ctx lo.1, co, zero_eq]
+  · rw [((e3.trans e4).trans e5).ctx lx1.1, cx1, neg_eq, one_eq]
+  · rw [e35.ctx lx2.1, cx2]; rfl
+  · rw [e45.ctx lo'.1, co']
+  · rw [e45.ctx lx2'.1, cx2']
+  · rw [e45.ctx ly.1, cy]; rfl
+  · rw [cr, neg_eq, one_eq]
+
 /-! ## LeakyRelu -/
 
 /-- the derivative the `ElMin(0·x, x)` node delivers towards `x`: 1 below the tie band, 0 above, ½ inside -/
@@ -410,6 +484,84 @@ theorem leakyD_cases (m a : ℝ) (thr : ℝ) (hthr : thr = (Scalar.eqThr : ℝ))
 theorem eqThr_pos : (0 : ℝ) < (Scalar.eqThr : ℝ) := by
   simp only [Scalar.eqThr, Scalar.ofSci]
   positivity
+
+/-- **the graph LeakyRelu builds** on a tracked, unspent input `x`: seven new tensors `z = Scale(x,0)`,
+    `s1 = ElMax(z,x)`, `s2 = ElMin(z,x)`, `s3 = Scale(s2,m)`, `s1' = Broadcast(s1)`, `s3' = Broadcast(s3)`,
+    `r = Add(s1',s3')`, their values and their back edges (all tracked, unspent, no gradient yet) -/
+theorem leaky_graph (m : ℝ) (H : Heap ℝ) (x : Nat) (hwf : (H.val x).WF) (l : Live H x) :
+    ∃ z s1 s2 s3 s1' s3' r H', actForward (Activation.leaky m) [some x] H = .ok (r, H') ∧ Extends H H' ∧
+      H'.val x = H.val x ∧
+      H'.val z = vScale (H.val x) 0 ∧
+      H'.val s1 = (H.val x).map (fun a => max 0 a) ∧ H'.val s2 = (H.val x).map (fun a => min 0 a) ∧
+      H'.val s1' = H'.val s1 ∧ H'.val s3' = H'.val s3 ∧
+      H'.val r = (H.val x).map (fun a => max 0 a + m * min 0 a) ∧
+      H'.ctx z = liveCtx [⟨x, .scaleX 0⟩] ∧
+      H'.ctx s1 = liveCtx [⟨z, .elext s1 z x⟩, ⟨x, .elext s1 x z⟩] ∧
+      H'.ctx s2 = liveCtx [⟨z, .elext s2 z x⟩, ⟨x, .elext s2 x z⟩] ∧
+      H'.ctx s3 = liveCtx [⟨s2, .scaleX m⟩] ∧
+      H'.ctx s1' = liveCtx [⟨s1, .bcastX s1 s1'⟩] ∧ H'.ctx s3' = liveCtx [⟨s3, .bcastX s3 s3'⟩] ∧
+      H'.ctx r = liveCtx [⟨s1', .idG⟩, ⟨s3', .idG⟩] := by
+  obtain ⟨r, H', hrun, hext, hval⟩ := C14.leaky_value m H x l.1 hwf
+  have h := hrun
+  unfold actForward at h
+  rw [bind_run (show (liftOut (oneInput [some x]) : HM ℝ Nat) H = .ok (x, H) from rfl)] at h
+  simp only [] at h
+  obtain ⟨z, H1, g1, h⟩ := bind_ok h
+  obtain ⟨vz, e1, cz, lz⟩ := hScale_live g1 l
+  have lx1 : Live H1 x := l.ext e1
+  obtain ⟨s1, H2, g2, h⟩ := bind_ok h
+  obtain ⟨vs1, e2, cs1, ls1⟩ := hCmp_ext_live (Or.inl rfl) g2 lz lx1
+  obtain ⟨s2, H3, g3, h⟩ := bind_ok h
+  obtain ⟨vs2, e3, cs2, ls2⟩ := hCmp_ext_live (Or.inr rfl) g3 (lz.ext e2) (lx1.ext e2)
+  obtain ⟨s3, H4, g4, g5⟩ := bind_ok h
+  obtain ⟨vs3, e4, cs3, ls3⟩ := hScale_live g4 ls2
+  have ls14 : Live H4 s1 := (ls1.ext e3).ext e4
+  obtain ⟨s1', s3', e5, vs1', vs3', vr, cs1', cs3', cr, ls1', ls3', lr⟩ := hArith_live g5 ls14 ls3
+  -- values
+  have hx1 : H1.val x = H.val x := e1.val l.1
+  have hz1 : H1.val z = (H.val x).map (fun a => 0 * a) := by rw [vz]; simp [vScale, Tensor.map]
+  have wz : (H1.val z).WF := by rw [hz1]; exact map_wf _ _ hwf
+  have wx : (H1.val x).WF := by rw [hx1]; exact hwf
+  have hdzx : (H1.val z).dims = (H1.val x).dims := by rw [hz1, hx1]; rfl
+  rw [vCmp_same .elmax _ _ wz wx hdzx] at vs1
+  rw [e2.val lz.1, e2.val lx1.1, vCmp_same .elmin _ _ wz wx hdzx] at vs2
+  injection vs1 with vs1
+  injection vs2 with vs2
+  have hs1 : H2.val s1 = (H.val x).map (fun a => max 0 a) := by
+    rw [← vs1, hz1, hx1]
+    simp only [Tensor.map, Cmp.fn, C14.zipWith_map_left]
+    congr 1
+    apply List.map_congr_left
+    intro a _; simp
+  have hs2 : H3.val s2 = (H.val x).map (fun a => min 0 a) := by
+    rw [← vs2, hz1, hx1]
+    simp only [Tensor.map, Cmp.fn, C14.zipWith_map_left]
+    congr 1
+    apply List.map_congr_left
+    intro a _; simp
+  have hs14 : H4.val s1 = (H.val x).map (fun a => max 0 a) := by rw [(e3.trans e4).val ls1.1, hs1]
+  have hs34 : H4.val s3 = (H.val x).map (fun a => m * min 0 a) := by
+    rw [vs3, hs2]; simp only [vScale, Tensor.map, List.map_map]; rfl
+  have w1 : (H4.val s1).WF := by rw [hs14]; exact map_wf _ _ hwf
+  have w3 : (H4.val s3).WF := by rw [hs34]; exact map_wf _ _ hwf
+  have hdd : (H4.val s1).dims = (H4.val s3).dims := by rw [hs14, hs34]; rfl
+  rw [← hdd, targetBroadcastDims_self, vBroadcastN_self _ w1] at vs1'
+  rw [← hdd, targetBroadcastDims_self, hdd, vBroadcastN_self _ w3] at vs3'
+  injection vs1' with vs1'
+  injection vs3' with vs3'
+  refine ⟨z, s1, s2, s3, s1', s3', r, H', hrun, hext, hext.val l.1, ?_, ?_, ?_, ?_, ?_, ?_, ?_, ?_, ?_, ?_, ?_, ?_, cr⟩
+  · rw [(((e2.trans e3).trans e4).trans e5).val lz.1, vz, zero_eq]
+  · rw [e5.val ls14.1, hs14]
+  · rw [(e4.trans e5).val ls2.1, hs2]
+  · rw [e5.val ls14.1, vs1']
+  · rw [e5.val ls3.1, vs3']
+  · rw [hval]; rfl
+  · rw [(((e2.trans e3).trans e4).trans e5).ctx lz.1, cz, zero_eq]
+  · rw [((e3.trans e4).trans e5).ctx ls1.1, cs1]
+  · rw [(e4.trans e5).ctx ls2.1, cs2]
+  · rw [e5.ctx ls3.1, cs3]
+  · exact cs1'
+  · exact cs3'
 
 /-- the LeakyRelu chain on a gradient `g_i · φ(x_i)` -/
 theorem leaky_chain (bm : BMode) (H : Heap ℝ) (x z s1 s2 s3 s1' s3' : Nat) (m : ℝ) (G : Tensor ℝ) (φ : ℝ → ℝ)
